@@ -246,7 +246,10 @@ def render_target(pkg, t, log, use_defs):
     fn = "genrule"
     if k == "gentest":
         fn = "gentest"
-        a.append("test_cmd = %s" % asp_str(t["test_cmd"]))
+        if isinstance(t["test_cmd"], dict):
+            a.append("test_cmd = {%s}" % ", ".join("%s: %s" % (asp_str(c), asp_str(v)) for c, v in sorted(t["test_cmd"].items())))
+        else:
+            a.append("test_cmd = %s" % asp_str(t["test_cmd"]))
         if t.get("data"):
             a.append("data = %s" % asp_list([src_ref(s) for s in t["data"]]))
         a.append("no_test_output = True")
